@@ -14,9 +14,11 @@ TimeoutIn == [dir |-> "timeout", tid |-> -1, peer |-> "none", kind |-> "none"]
 Closest(S) == {x \in S : Cardinality({y \in S : Dist[y] < Dist[x]}) < K}
 Live(st, tids) == \E i \in st.infl : i.tid \in tids /\ i.age < MaxAge
 
-NoQ == [on |-> FALSE, kind |-> "fn", cand |-> {}, vis |-> {}, tids |-> {}, resp |-> {}]
+\* ctok: the candidates that carry a token - a lookup is seeded with the cached nodes of an earlier one, tokens and all; a
+\* candidate learned from the routing table or from an answer has none (ClosestNodes::add keeps the first node of an id)
+NoQ == [on |-> FALSE, kind |-> "fn", cand |-> {}, vis |-> {}, tids |-> {}, resp |-> {}, ctok |-> {}]
 NoP == [on |-> FALSE, started |-> FALSE, tids |-> {}, acks |-> 0, errs |-> 0]
-NoC == [on |-> FALSE, kind |-> "fn", nodes |-> {}]
+NoC == [on |-> FALSE, kind |-> "fn", nodes |-> {}, tok |-> {}]     \* tok: the cached nodes that carry a token
 
 \* rt: the peers in the node's routing table (the bootstrap-time content, plus every peer whose answer was accepted
 \* without yielding a value: core/handle_response.rs adds the responder at the end, value answers return before that)
@@ -37,7 +39,9 @@ SendAll(st, D, kind) ==
        IN [st |-> r.st, tids |-> r.tids \cup {st.tid}]
 
 \* core.rs get_cached_closest_nodes
-CacheUsable(st) == st.cache.on /\ st.cache.nodes # {} /\ (FixTokenFilter => st.cache.kind = "get")
+\* core.rs get_cached_closest_nodes: usable when some cached node carries a (fresh) token.  That is every responder of a
+\* get-kind lookup, and of a find_node lookup the candidates it inherited from a usable cache entry (not already in the table)
+CacheUsable(st) == st.cache.on /\ st.cache.nodes # {} /\ (FixTokenFilter => st.cache.tok # {})
 
 \* Actor::get: piggy-back on the active query (whatever its kind) or create one
 DoGet(st, kind) ==
@@ -45,11 +49,12 @@ DoGet(st, kind) ==
   ELSE LET cand == st.rt \cup (IF CacheUsable(st) THEN st.cache.nodes ELSE {})
            r == SendAll(st, Closest(cand), kind)
        IN [r.st EXCEPT !.q = [on |-> TRUE, kind |-> kind, cand |-> cand, vis |-> Closest(cand),
-                              tids |-> r.tids, resp |-> {}]]
+                              tids |-> r.tids, resp |-> {},
+                              ctok |-> IF CacheUsable(st) THEN st.cache.tok \ st.rt ELSE {}]]
 
 \* PutQuery::start: only token bearers are written to; -> [st, sent]
-StartPut(st, nodes, haveTokens) ==
-  LET D == IF haveTokens THEN nodes ELSE {}
+StartPut(st, nodes, tok) ==
+  LET D == nodes \cap tok
       r == SendAll(st, D, "store")
   IN [st |-> [r.st EXCEPT !.p.tids = r.tids, !.p.started = (r.tids # {})], sent |-> r.tids # {}]
 
@@ -64,7 +69,7 @@ HandleApi(st) ==
           THEN [DoGet(st0, op) EXCEPT !.gs = st0.gs \cup {c}]
           ELSE LET st1 == [st0 EXCEPT !.p = [NoP EXCEPT !.on = TRUE], !.ps = st0.ps \cup {c}]
                IN IF CacheUsable(st0)
-                  THEN LET r == StartPut(st1, st0.cache.nodes, st0.cache.kind = "get")
+                  THEN LET r == StartPut(st1, st0.cache.nodes, st0.cache.tok)
                        IN IF FixEmptyStart /\ ~r.sent
                           THEN Finish([st0 EXCEPT !.p = st0.p], {c}, "err")     \* Actor::put returns Err: caller answered at once
                           ELSE r.st
@@ -101,9 +106,10 @@ Tick(stIn, input) ==
       st3 == IF st2.q.on THEN [r3.st EXCEPT !.q.vis = st2.q.vis \cup toVisit, !.q.tids = st2.q.tids \cup r3.tids] ELSE st2
       qDone == st3.q.on /\ ~Live(st3, st3.q.tids)
       closest == IF st3.q.kind = "fn" THEN Closest(st3.q.cand) ELSE st3.q.resp
+      ctok == IF st3.q.kind = "fn" THEN closest \cap st3.q.ctok ELSE closest
       r4 == IF qDone /\ st3.p.on /\ ~st3.p.started
             THEN IF closest = {} THEN [st |-> st3, sent |-> FALSE, fail |-> TRUE]
-                 ELSE LET r == StartPut(st3, closest, st3.q.kind = "get")
+                 ELSE LET r == StartPut(st3, closest, ctok)
                       IN [st |-> r.st, sent |-> r.sent, fail |-> (FixEmptyStart /\ ~r.sent)]
             ELSE [st |-> st3, sent |-> FALSE, fail |-> FALSE]
       st4 == r4.st
@@ -111,7 +117,7 @@ Tick(stIn, input) ==
       putOut == IF r4.fail THEN "err" ELSE putRes
       st5 == IF qDone THEN Finish([st4 EXCEPT !.q = NoQ,
                                               !.cache = IF st4.q.cand = {} THEN st4.cache
-                                                        ELSE [on |-> TRUE, kind |-> st4.q.kind, nodes |-> closest],
+                                                        ELSE [on |-> TRUE, kind |-> st4.q.kind, nodes |-> closest, tok |-> ctok],
                                               !.gs = {}], st4.gs, "end")
              ELSE st4
       st6 == IF putEnd THEN Finish([st5 EXCEPT !.p = NoP, !.ps = {}], st5.ps, putOut) ELSE st5
